@@ -71,7 +71,7 @@ theorem hSolve_terminates {σ : Type} (P : HParams α n) (Kn : HKernel α n) (f 
   cases hs : hStart P f ob obs0 x0 y0 firstStep hinit fo hl with
   | inr r => exact ⟨r, rfl⟩
   | inl s =>
-    have hp := (startMeter_pairs f x0 y0 P.posneg firstStep hinit).2
+    have hp := (startMeter_pairs f x0 y0 P.posneg P.hmax firstStep hinit).2
     have h0 : s.m.cnt.total = 0 := by
       unfold hStart at hs
       dsimp only at hs
